@@ -51,7 +51,7 @@ let rec take n l = if n <= 0 then [] else match l with [] -> [] | x :: t -> x ::
 let nth_or l i = try List.nth l i with _ -> 0
 
 (* hash of a datagram handed to the application, per socket kind (same rule in the harness) *)
-let rx_hash (kind : int) (b : int list) : string =
+let rx_hash (kind : int) (from_v4 : bool) (b : int list) : string =
   match kind with
   | 1 -> string_of_int (hash_ints b)
   | 2 ->
@@ -59,7 +59,7 @@ let rx_hash (kind : int) (b : int list) : string =
       if List.length b >= 8 && (ty = 8 || ty = 0 || ty = 128 || ty = 129) then
         string_of_int (hash_ints (take 2 b @ drop 4 b))
       else if List.length b >= 8 then begin
-        let v4 = (ty = 3 || ty = 11) in
+        let v4 = from_v4 in
         let hl = if v4 then 20 else 40 in
         let iproto = nth_or b (if v4 then 8 + 9 else 8 + 6) in
         let off = 8 + hl + (if iproto = 6 then 20 else 8) in
@@ -76,7 +76,7 @@ let show_rres (kind : int) (r : rres) : string =
   | RR_Err e -> Printf.sprintf "ret err %s" (sz e)
   | RR_Trunc (_, _) -> "ret err 4"
   | RR_Ok (n, m, data) ->
-      Printf.sprintf "ret ok %s %s %s %s %s" (sz n) (rx_hash kind (il data))
+      Printf.sprintf "ret ok %s %s %s %s %s" (sz n) (rx_hash kind (iz m.dm_addr.a_ver = 4) (il data))
         (addr_s m.dm_addr) (sz m.dm_port) (oaddr_s m.dm_local)
 
 let show_frame (f : frame_out) : string =
@@ -148,7 +148,7 @@ let event_of (kinds : int array) (line : string) : dg_event =
   | ["peek"; s] -> EvSock (k s, OpPeek)
   | ["peeks"; s; c] -> EvSock (k s, OpPeekSlice (zs c))
   | ["inject"; "udp"; src; sp; dst; dp; spec; st] ->
-      EvInject (FI_Udp (addr_of src, zs sp, addr_of dst, zs dp, zl (payload_of 0 spec), st = "ok"))
+      EvInject (FI_Udp (addr_of src, zs sp, addr_of dst, zs dp, zl (payload_of 0 spec), zi (if st = "ok" then 0 else if st = "trunc" then 1 else 2)))
   | ["inject"; "echo"; src; dst; kind; ident; seq; spec; st] ->
       EvInject (FI_Icmp (icmp_msg_echo (addr_of src) (addr_of dst) (kind = "req") (int_of_string ident)
                            (int_of_string seq) (payload_of 0 spec), st = "ok"))
